@@ -45,16 +45,19 @@ Inductive verdict := VOk | VTooLarge (persistable : bool) | VErr.
 Definition max_id_length : N := Z.to_N gen_max_id_length.       (* event.go maxIDLength *)
 Definition max_event_length : N := Z.to_N gen_max_event_length. (* event.go maxEventLength *)
 
+(* checkIDLength(id, kind): more than 255 code points is refused, more than 255 bytes only is
+   too large but persistable *)
+Definition check_id_length (id : bytes) : verdict :=
+  if max_id_length <? rune_count id then VTooLarge false
+  else if max_id_length <? len id then VTooLarge true
+  else VOk.
+
 (* checkID(id, kind, sigil) *)
 Definition check_id (id : bytes) (sigil : N) : verdict :=
   if negb (mem_byte ch_colon id) then VErr else
   match id with
   | [] => VErr
-  | c :: _ =>
-      if negb (c =? sigil) then VErr
-      else if max_id_length <? rune_count id then VTooLarge false
-      else if max_id_length <? len id then VTooLarge true
-      else VOk
+  | c :: _ => if negb (c =? sigil) then VErr else check_id_length id
   end.
 
 Definition lenient_version (v : bytes) : bool := mem_bytes v gen_lenient_byte_limit_versions.
@@ -72,5 +75,5 @@ Definition check_fields (v : bytes) (refs_nil : bool) (json_len : N) (type : byt
   else if max_id_length <? len type then VTooLarge (lenient_version v)
   else if match state_key with Some k => max_id_length <? len k | None => false end
     then VTooLarge (lenient_version v)
-  else if bytes_eqb v pseudo_id_version then VOk
+  else if bytes_eqb v pseudo_id_version then check_id_length sender
   else check_id sender 64.
